@@ -68,7 +68,7 @@ def Record(fields, values):
 def truth(av: AVal) -> Optional[bool]:
     if av is not None and av.kind == "record":
         return len(av.value[1]) > 0
-    if av.kind == "ref":
+    if av.kind in ("ref", "bound"):
         return True
     if av.kind == "const":
         try:
@@ -284,6 +284,7 @@ class Walker:
         sticky=None,
         max_paths: int = 400000,
         max_depth: int = 4,
+        recursion: int = 0,
         unroll: int = 2,
         exact_loops: bool = False,
         store_hook: Callable[[ast.AST, AVal, "State"], None] = None,
@@ -306,6 +307,7 @@ class Walker:
         self.symbols = symbols or {}
         self.max_paths = max_paths
         self.max_depth = max_depth
+        self.recursion = recursion  # how many frames of one function may be open at a time beyond the first (evaluator mode)
         self.unroll = unroll
         # exact_loops: the walker is used as an evaluator on constants - every iteration continues exactly from the
         # state the previous one left (nothing is forgotten); a loop still running after `unroll` iterations ends the
@@ -613,6 +615,14 @@ class Walker:
             d = st.defs[e.id]
             if isinstance(d, ast.Call):
                 name = dotted(d.func)
+        if name is None and isinstance(e, ast.Name) and st.env.get(e.id) is TRUTHY and ("__excname." + e.id) in st.facts:
+            # `raise e` inside `except X as e`: the exception that was caught
+            name = st.facts["__excname." + e.id].value
+        if name is None and isinstance(e, ast.Name) and e.id not in st.env and self.frame[0] is not None:
+            # a module-level instance kept for raising: NAME = SomeException()
+            vals = self.frame[0].module.globals.get(e.id) or []
+            if len(vals) == 1 and isinstance(vals[0], ast.Call) and dotted(vals[0].func):
+                name = dotted(vals[0].func)
         if name is not None:
             pass
         elif isinstance(e, ast.Call):
@@ -965,6 +975,9 @@ class Walker:
         if callee.cls is not None and target.kind != "ctor":
             if explicit_self:
                 avals = avals[1:]
+            if params and params[0] == "cls" and any((dotted(dc) or "") == "classmethod" for dc in callee.node.decorator_list):
+                # a class method: its first parameter is the class it was reached through
+                env["cls"] = Ref(target.bound_cls or callee.cls)
             params = params[1:] if params and params[0] in ("self", "cls") else params
         elif target.kind == "ctor":
             params = params[1:] if params else params
@@ -1054,6 +1067,7 @@ class Walker:
                         s.exc = v
                         if h.name:
                             s.env[h.name] = TRUTHY
+                            s.facts["__excname." + h.name] = Const(str(v))
                         s.add(Event("except", h, str(v), self.frame))
                         for k2, v2, s2 in self.exec_block(h.body, s):
                             s2.exc = None if k2 != "raise" else s2.exc
@@ -1290,6 +1304,13 @@ class Walker:
                 known = EXT_CONSTS.get(res[1])
                 if known is not None:
                     return [("val", Const(known), st)]
+                if res[1].startswith("stat.") and res[1].count(".") == 1:
+                    # the integer constants of the stat module (ST_MODE, S_IFREG ...) are fixed by POSIX
+                    import stat as _stat
+
+                    sv = getattr(_stat, res[1][5:], None)
+                    if type(sv) is int:
+                        return [("val", Const(sv), st)]
                 return [("val", UNK, st)]
         def cont_attr(vals, s):
             b = vals[0]
@@ -1298,6 +1319,13 @@ class Walker:
                 return [("val", Const(getattr(b.value, node.attr)), s)]
             if b.kind == "record" and b.value[0] and node.attr in b.value[0]:
                 return [("val", b.value[1][b.value[0].index(node.attr)], s)]
+            if b.kind == "const" and type(b.value).__name__ == "stat_result" and node.attr.startswith("st_") and hasattr(b.value, node.attr):
+                return [("val", Const(getattr(b.value, node.attr)), s)]
+            # a model object of a rule that answers its own attributes
+            if b.kind == "const" and hasattr(type(b.value), "pgv_attr") and isinstance(node.ctx, ast.Load):
+                got = b.value.pgv_attr(node.attr)
+                if got is not None:
+                    return [("val", got if isinstance(got, AVal) else Const(got), s)]
             return [("val", UNK, s)]
         return self._seq([node.value], st, cont_attr)
 
@@ -1313,6 +1341,11 @@ class Walker:
                     # the same lookup fails the same way at run time
                     s.add(Event("raise", node, type(exc).__name__, self.frame, "implicit"))
                     return [("raise", type(exc).__name__, s)]
+                except TypeError:
+                    if type(base.value) in _PLAIN_TYPES and type(idx.value) in _PLAIN_TYPES:
+                        s.add(Event("raise", node, "TypeError", self.frame, "implicit"))
+                        return [("raise", "TypeError", s)]
+                    return [("val", UNK, s)]
                 except Exception:
                     return [("val", UNK, s)]
             return [("val", UNK, s)]
@@ -1490,14 +1523,18 @@ class Walker:
 
     def e_JoinedStr(self, node, st):
         parts = [v.value for v in node.values if isinstance(v, ast.FormattedValue)]
-        plain = all(v.conversion == -1 and v.format_spec is None for v in node.values if isinstance(v, ast.FormattedValue))
+        plain = all(v.conversion in (-1, 115, 114) and v.format_spec is None for v in node.values if isinstance(v, ast.FormattedValue))
 
         def cont(vals, s):
-            if plain and all(v.kind == "const" and isinstance(v.value, (str, int)) and not isinstance(v.value, bool) for v in vals):
+            if plain and all(v.kind == "const" and (isinstance(v.value, (str, int)) or hasattr(type(v.value), "pgv_attr"))
+                             and not isinstance(v.value, bool) for v in vals):
                 it = iter(vals)
                 out = ""
                 for v in node.values:
-                    out += str(v.value) if isinstance(v, ast.Constant) else str(next(it).value)
+                    if isinstance(v, ast.Constant):
+                        out += str(v.value)
+                    else:
+                        out += repr(next(it).value) if v.conversion == 114 else str(next(it).value)
                 return [("val", Const(out), s)]
             return [("val", UNK, s)]
         return self._seq(parts, st, cont)
@@ -1599,6 +1636,9 @@ class Walker:
             held = st.env.get(node.func.id)
             if held is not None and held.kind == "const" and isinstance(held.value, FuncInfo):
                 held = Ref(held.value)
+            if held is not None and held.kind == "bound" and concrete is not None:
+                # a local holding a bound method of self (evaluator = getattr(self, name); evaluator(...))
+                target = Target("repo", "self." + held.value.name, funcs=[held.value], bound_cls=concrete)
             if held is not None and held.kind == "ref":
                 obj = held.value
                 if isinstance(obj, ClassInfo):
@@ -1637,7 +1677,7 @@ class Walker:
                     pass
             if isinstance(node.func, ast.Attribute) and node.func.attr == "format" and len(recv) == 1 and recv[0].kind == "const" \
                     and isinstance(recv[0].value, str) and all(a.kind == "const" for a in args) and all(v.kind == "const" for v in kws.values()) \
-                    and all(isinstance(a.value, (str, int, float, bool, type(None), bytes)) for a in list(args) + list(kws.values())):
+                    and all(_printable(a.value) for a in list(args) + list(kws.values())):
                 try:
                     return [("val", Const(recv[0].value.format(*[a.value for a in args], **{k: v.value for k, v in kws.items()})), s)]
                 except Exception:
@@ -1706,6 +1746,23 @@ class Walker:
             if tgt.kind == "unknown" and npre == 1 and not isinstance(node.func, (ast.Name, ast.Attribute)) \
                     and recv[0].kind in ("const", "ref") and isinstance(recv[0].value, FuncInfo):
                 tgt = Target("repo", norm(node.func), funcs=[recv[0].value])
+            if tgt.kind in ("unknown", "ext") and npre == 1 and not isinstance(node.func, (ast.Name, ast.Attribute)) and recv[0].kind == "bound" \
+                    and self.frame[1] is not None:
+                tgt = Target("repo", "self." + recv[0].value.name, funcs=[recv[0].value], bound_cls=self.frame[1])  # getattr(self, name)(...)
+            if tgt.kind == "unknown" and isinstance(node.func, ast.Name) and npre == 0:
+                held = s.env.get(node.func.id)
+                if held is not None and held.kind == "ref" and isinstance(held.value, ClassInfo):
+                    # a local (the cls of a class method) holding a class of the repository
+                    tgt = Target("ctor", held.value.qualname, funcs=[m_ for m_ in [self.prog.resolve_method(held.value, "__init__")] if m_ is not None],
+                                 cls=held.value)
+            # a constant named tuple with some fields replaced
+            if isinstance(node.func, ast.Attribute) and node.func.attr == "_replace" and npre == 1 and recv[0].kind == "const" \
+                    and isinstance(recv[0].value, tuple) and hasattr(type(recv[0].value), "_fields") and not args \
+                    and all(v.kind == "const" for v in kws.values()):
+                try:
+                    return [("val", Const(recv[0].value._replace(**{k: v.value for k, v in kws.items()})), s)]
+                except (ValueError, TypeError):
+                    pass
             # a NamedTuple class of the repository called on constants gives that tuple
             if tgt.kind == "ctor" and tgt.cls is not None and all(a.kind == "const" for a in args) and all(v.kind == "const" for v in kws.values()):
                 nt = _namedtuple_type(tgt.cls)
@@ -1734,6 +1791,19 @@ class Walker:
                 and (isinstance(args[1].value, type) or (isinstance(args[1].value, tuple) and all(isinstance(t_, type) for t_ in args[1].value))) \
                 and type(args[0].value) in _BUILTIN_TYPES.values() and norm(node) not in s.facts:
             return [("val", Const(isinstance(args[0].value, args[1].value)), s)]
+        if name == "builtins.isinstance" and len(args) == 2 and args[0].kind == "const" and type(args[0].value) in _PLAIN_TYPES \
+                and norm(node) not in s.facts and (
+                    (args[1].kind == "ref" and isinstance(args[1].value, ClassInfo))
+                    or (args[1].kind == "const" and isinstance(args[1].value, tuple) and args[1].value
+                        and all(isinstance(t_, ClassInfo) for t_ in args[1].value))):
+            # a str / int / None / list ... value is no instance of a class of the repository
+            return [("val", Const(False), s)]
+        if name in ("builtins.hasattr", "builtins.callable") and args and args[0].kind == "const" and type(args[0].value) in _PLAIN_TYPES \
+                and norm(node) not in s.facts and all(a.kind == "const" for a in args):
+            try:
+                return [("val", Const(hasattr(args[0].value, args[1].value) if name.endswith("hasattr") else callable(args[0].value)), s)]
+            except Exception:
+                pass
         if name == "builtins.isinstance" or name == "builtins.hasattr" or name == "builtins.callable":
             fact = s.facts.get(norm(node))
             return [("val", fact if fact is not None else UNK, s)]
@@ -1764,11 +1834,38 @@ class Walker:
                 return [("val", Const(_re.compile(*[a.value for a in args])), s)]
             except Exception:
                 pass
+        if name == "builtins.getattr" and len(args) in (2, 3) and isinstance(node.args[0], ast.Name) and node.args[0].id == "self" \
+                and concrete is not None and args[1].kind == "const" and isinstance(args[1].value, str):
+            # getattr(self, "method"): the bound method of the concrete class
+            m_ = self.prog.resolve_method(concrete, args[1].value)
+            if m_ is not None:
+                return [("val", AVal("bound", m_), s)]
+        if name == "builtins.range" and 1 <= len(args) <= 3 and not kws and all(a.kind == "const" and type(a.value) is int for a in args):
+            try:
+                r_ = range(*[a.value for a in args])
+                if len(r_) <= 4096:
+                    return [("val", Const(list(r_)), s)]
+            except (ValueError, OverflowError):
+                pass
         if name == "builtins.len" and args and args[0].kind == "const":
             try:
                 return [("val", Const(len(args[0].value)), s)]
+            except TypeError:
+                if type(args[0].value) in _PLAIN_TYPES and len(args) == 1:
+                    # len() of a number or None fails the same way at run time
+                    s.add(Event("raise", node, "TypeError", self.frame, "implicit"))
+                    return [("raise", "TypeError", s)]
             except Exception:
                 pass
+        if name is not None and name.startswith("stat.S_") and len(args) == 1 and not kws and args[0].kind == "const" and type(args[0].value) is int:
+            import stat as _stat
+
+            fn = getattr(_stat, name[5:], None)
+            if callable(fn):
+                try:
+                    return [("val", Const(fn(args[0].value)), s)]
+                except Exception:
+                    pass
         if name in PURE_EXT_FUNCS and args and all(a.kind == "const" for a in args) and not kws:
             import posixpath
 
@@ -1844,6 +1941,10 @@ class Walker:
             # the evaluated arguments of the call being summarised are available to the hook as walker.cur_args / cur_kws
             self.cur_args, self.cur_kws = args, kws
             val = self.call_value(node, target, s)
+            if val is not None and val.kind == "raise":
+                # the summary says that the call fails: AVal("raise", <exception name>)
+                s.add(Event("raise", node, val.value, self.frame, "implicit"))
+                return out + [("raise", val.value, s)]
         # -- a generator of the repository used as a value (list(gen()), x.extend(gen()), "".join(gen())): in evaluator mode
         #    it is run to the end and stands for the list of what it yields
         if val is None and self.exact_loops and target.kind == "repo" and len(target.funcs) == 1 and target.funcs[0] is not None \
@@ -1875,7 +1976,7 @@ class Walker:
         # -- inlining
         if val is None and target.kind in ("repo", "ctor") and len(target.funcs) == 1 and (not target.by_name or self.inline_by_name):
             callee = target.funcs[0]
-            if callee is not None and s.depth < self.max_depth and callee not in s.stack \
+            if callee is not None and s.depth < self.max_depth and s.stack.count(callee) <= self.recursion \
                     and self.inline(callee, target, s.depth):
                 out.extend(self._inline(node, target, callee, args, kws, s))
                 return out
@@ -1914,6 +2015,8 @@ class Walker:
         if callee.cls is not None and target.kind != "ctor":
             if explicit_self:
                 avals = avals[1:]
+            if params and params[0] == "cls" and any((dotted(dc) or "") == "classmethod" for dc in callee.node.decorator_list):
+                env["cls"] = Ref(target.bound_cls or callee.cls)
             params = params[1:] if params and params[0] in ("self", "cls") else params
         elif target.kind == "ctor":
             params = params[1:] if params else params
@@ -2134,6 +2237,11 @@ def _const_of(node):
     return None
 
 
+def _printable(x) -> bool:
+    """Values whose text is defined: plain scalars, and the model objects of a rule (they define their own __str__)."""
+    return isinstance(x, (str, bytes, int, float, bool, type(None))) or hasattr(type(x), "pgv_attr")
+
+
 def _binop(op, a, b) -> AVal:
     try:
         if isinstance(op, ast.Add):
@@ -2144,8 +2252,7 @@ def _binop(op, a, b) -> AVal:
             return Const(a * b)
         if isinstance(op, ast.Mod) and not isinstance(a, (str, bytes)):
             return Const(a % b)
-        if isinstance(op, ast.Mod) and isinstance(a, (str, bytes)) and (isinstance(b, (str, bytes, int, float, bool, type(None)))
-                                                                      or (isinstance(b, tuple) and all(isinstance(x, (str, bytes, int, float, bool, type(None))) for x in b))):
+        if isinstance(op, ast.Mod) and isinstance(a, (str, bytes)) and (_printable(b) or (isinstance(b, tuple) and all(_printable(x) for x in b))):
             return Const(a % b)
         if isinstance(op, ast.FloorDiv):
             return Const(a // b)
@@ -2225,6 +2332,7 @@ def _is_global_written(prog: Program, mod, name: str) -> bool:
 
 _BUILTIN_TYPES = {"dict": dict, "list": list, "str": str, "int": int, "bytes": bytes, "tuple": tuple, "set": set, "frozenset": frozenset,
                   "float": float, "bool": bool}
+_PLAIN_TYPES = tuple(_BUILTIN_TYPES.values()) + (type(None),)
 
 
 def _callee_locals(func):
